@@ -198,6 +198,21 @@ Definition linear (names : list string) : mg :=
   let n := Z.of_nat (List.length names) in
   {| g_nodes := linear_nodes 0 names; g_adj := linear_adj 0 n (List.length names); g_maxres := n |}.
 
+(* circular strand as parse_ig + MetaMolecule(graph) build it: the copy re-adds edges node by node, so the last
+   residue lists residue 0 (closing edge, labelled) before its predecessor *)
+Definition circle_attr : eattr := [("linktype", "circle")]%string.
+Fixpoint circular_adj (k : Z) (n : Z) (m : nat) : list (Z * list (Z * eattr)) :=
+  match m with
+  | O => []
+  | S m' => (k, (if (k =? n - 1) && (0 <? k) then [(0, circle_attr)] else []) ++
+                (if 0 <? k then [(k - 1, [])] else []) ++ (if k + 1 <? n then [(k + 1, [])] else []) ++
+                (if k =? 0 then [(n - 1, circle_attr)] else []))
+            :: circular_adj (k + 1) n m'
+  end.
+Definition circular (names : list string) : mg :=
+  let n := Z.of_nat (List.length names) in
+  {| g_nodes := linear_nodes 0 names; g_adj := circular_adj 0 n (List.length names); g_maxres := n |}.
+
 (* ---- declarative specification on name sequences ---- *)
 Section Spec.
   Variable table : list (string * string).
